@@ -38,7 +38,7 @@ META = dict(
          'pre-initial or one of them completes, and runs when its expression '
          'is then true).',
     note='one fixture graph, two cycle points (10-11 instances), every '
-         'completion order (6 scheduling choices of 4 alternatives, thorough 8), '
+         'completion order (6 scheduling choices of 4 alternatives, thorough 7), '
          'x / no-x per instance of a, one execution failure + retry of a@1; '
          'job submission and messaging are played atomically per event by '
          'the harness (no subprocesses); datetime cycling, families and '
@@ -50,7 +50,7 @@ META = dict(
                'TaskEventsManager.process_message', 'TaskProxy.is_ready_to_run',
                'Scheduler.check_auto_shutdown'],
     bounds=['graph: a:x? | a[-P1] => b; a => c; a & d => e; P1, initial 1, final 2',
-            'completion order: 6 choices x 4 alternatives (thorough: 8 x 4); x bit per a '
+            'completion order: 6 choices x 4 alternatives (thorough: 7 x 4); x bit per a '
             'instance; optional failure+retry of a@1'],
     stubs=['job submission / messaging played by the harness', 'task_states / task_outputs tables: '
            'dictionary model fed by the put_* calls the real code makes', 'data_store_mgr', 'workflow_db_mgr',
@@ -186,7 +186,8 @@ def run(c1: int, c2: int, c3: int, c4: int, c5: int, c6: int, c7: int,
     pre: 0 <= c3 <= SLICE['alt'] and 0 <= c4 <= SLICE['alt']
     pre: 0 <= c5 <= SLICE['alt'] and 0 <= c6 <= SLICE['alt']
     pre: 0 <= c7 <= SLICE['alt'] and 0 <= c8 <= SLICE['alt']
-    pre: SLICE['n'] >= 8 or (c7 == 0 and c8 == 0)
+    pre: SLICE['n'] >= 8 or c8 == 0
+    pre: SLICE['n'] >= 7 or c7 == 0
     post: _
     """
     cs = [fork_int(c, 0, 3) for c in (c1, c2, c3, c4, c5, c6, c7, c8)]
@@ -209,7 +210,8 @@ def run3(c1: int, c2: int, c3: int, c4: int, c5: int, c6: int, c7: int,
     pre: sl(c1=c1)
     pre: 0 <= c1 <= 3 and 0 <= c2 <= 3 and 0 <= c3 <= 3 and 0 <= c4 <= 3
     pre: 0 <= c5 <= 3 and 0 <= c6 <= 3 and 0 <= c7 <= 3 and 0 <= c8 <= 3
-    pre: SLICE['n'] >= 8 or (c7 == 0 and c8 == 0)
+    pre: SLICE['n'] >= 8 or c8 == 0
+    pre: SLICE['n'] >= 7 or c7 == 0
     pre: SLICE['n'] >= 6 or (c5 == 0 and c6 == 0)
     post: _
     """
@@ -221,13 +223,13 @@ def run3(c1: int, c2: int, c3: int, c4: int, c5: int, c6: int, c7: int,
 def OBLIGATIONS(tier):
     big = tier == 'thorough'
     t = 1800 if big else 170
-    alt, n = (3, 8) if big else (3, 6)
+    alt, n = (3, 7) if big else (3, 6)
     return [Ob(f'run[c1={c1},c2={c2}]', 'run', timeout=t,
                twin=(c1 == 0 and c2 == 0),
                slice={'c1': c1, 'c2': c2, 'alt': alt, 'n': n})
             for c1 in range(alt + 1) for c2 in range(alt + 1)] + [
         Ob(f'run3[c1={c1}]', 'run3', timeout=t, twin=(c1 == 0),
-           slice={'c1': c1, 'n': 8 if big else 6}) for c1 in range(4)] + [
+           slice={'c1': c1, 'n': 7 if big else 6}) for c1 in range(4)] + [
         Ob(f'graphs[b<={_expr_text(ATOMS_B[eb])}]', 'graphs', timeout=t,
            twin=(eb == 0), slice={'eb': eb, 'full': big})
         for eb in range(len(ATOMS_B))]
